@@ -27,7 +27,8 @@ read-only (ordinary calls get writeable copies), and every answer returned durin
 table AGAIN after the battery's last call (key ...:held-answer: answers belong to the caller).  A sampler that writes into
 a writeable request array without giving a wrong answer is reported as drift.  The map is the caller's array too: the same
 pixel values as >f4, <f4, >f8, >i2, >u2, >i4, <i8, u1, as astropy.io.fits hands an image out, Fortran-ordered, strided,
-read-only, RGB >i4 (two of these per sampler and table, in rotation; key ...:map-presentation).  Edge-family tables are
+read-only, RGB >i4 (two of these per sampler and table, in rotation; key ...:map-presentation), and with 1, 2, 4 or 5
+colour planes instead of 3 (one per sampler and table, in rotation; result shape = request shape + the map's colour axes).  Edge-family tables are
 also replayed with every point moved to within 1e-6 .. 1e-12 rad of its cell edge / centre / pole / seam (TLC's value for
 the odd unit stands because a cell is an interval; below 1e-9 rad either neighbour), and the Galactic sampler is asked at
 and within 0 .. 1e-6 rad of both Galactic poles, where the value must be one of TLC's values of the top / bottom row.  "sky" tables are also pushed through plate_carree_galactic_sampler (same battery) at the
@@ -55,6 +56,8 @@ LAYOUTS_PER_BATTERY = 3
 MAP_FORMS = [">f4", "fits", "<f4", ">f8", ">i2", "Fortran-ordered", ">u2", ">i4", "strided view", "u1", "read-only", "RGB >i4", "<i8"]
 MAPS_PER_BATTERY = 2
 map_counter = {}
+COLOUR_LENGTHS = [2, 5, 1, 4]
+colour_counter = {}
 layout_counter = {}          # per sampler name: every sampler meets every presentation in turn
 
 CFG = """SPECIFICATION Spec
@@ -398,6 +401,21 @@ def replay_table(ctx, rec, S, gal_tools):
                           " [map given as %s, dtype %s]" % (form, m.dtype.str))
             if not np.array_equal(np.asarray(m), keep):
                 ctx.drift("%s modified the caller's map array (%dx%d, given as %s)" % (name, ny, nx, form))
+        # ---- the map's colour axes are whatever the caller's array has after (rows, columns): 1, 2, 4 or 5 planes as well as 3,
+        # on maps of every shape (very few rows included).  Result shape = request shape + (planes,), every plane from TLC's pixel.
+        c = COLOUR_LENGTHS[colour_counter.get(name, 0) % len(COLOUR_LENGTHS)]
+        colour_counter[name] = colour_counter.get(name, 0) + 1
+        planes_map = (c * scalar_map[..., None] + np.arange(c)).astype(np.int32)
+
+        def dec_planes(out):
+            o = out.astype(np.int64)
+            good = o[..., 0] % c == 0
+            for i in range(1, c):
+                good = good & (o[..., i] == o[..., 0] + i)
+            return o[..., 0] // c, good
+        a, b = LONr.copy(), LATr.copy()
+        judge_out(name, "%d-plane" % c, lambda: make(planes_map)(a, b), a, b, want, (c,), dec_planes, "map-presentation",
+                  " [map of shape %s: %d rows, %d columns, %d colour planes]" % (planes_map.shape, ny, nx, c))
         recheck_held()
 
     def near_lattice(name, make, to_request, skip_pole_rows, eps_list):
@@ -479,6 +497,7 @@ def run(ctx):
     repo.setup(ctx)
     layout_counter.clear()
     map_counter.clear()
+    colour_counter.clear()
     import numpy as np  # noqa
     from toasty import samplers as S
     from astropy.coordinates import SkyCoord, Galactic
